@@ -177,6 +177,8 @@ class MultiTrackLargeVocabularyNotelikeTokeniser:
                     raise TokenisationException(f"Invalid note pitch: {msg_note}")
                 if msg_value not in self.note_values:
                     raise TokenisationException(f"Invalid note value: {msg_value}")
+                # An accepted value equals one of the integer note values, render it as such (times may be floats)
+                msg_value = int(msg_value)
 
                 token = ""
 
